@@ -1,6 +1,222 @@
 import Driver.Util
-open Lean
+import DoitModel.Model.Act
+open Lean DoitModel.Act
 namespace Driver.Act
-/-- handler for requests with `"model": "act"` (stub: filled in when the model exists) -/
-def handle (_ : Json) : Json := Driver.err "model not implemented"
+/-! requests with `"model":"act"`:
+
+* `{"op":"py","kwargsRaise":b,"ret":RET}`                       -> ARES
+* `{"op":"cmd","expandRaises":b,"cap":"yes|no|devnull","saveOut":k|null,"rc":int,"out":s,"err":s}` -> ARES
+* `{"op":"task","actions":[{"op":"py",...}|{"op":"cmd",...}|{"op":"ares","outcome":..,"result":RES,"values":VALS}]}`
+      -> `{"outcome","result","values","ran","ares":[ARES per action]}`
+* `{"op":"route","v":0|1|2|null,"kind":"py|cmd","cap":"yes|no|devnull"}`
+      -> `{"live":[out?,err?],"out":ROUTE,"err":ROUTE}`
+* `{"op":"stream","forest":[ITEM…]}` or `{"op":"stream","evs":[["save",a],["set",a],["write",a,n],["restore",a],["read",a]],"pinned":b}`
+      with ITEM = `["w",n]` | `["x",b,[ITEM…]]` | `["k",b]` (an execution whose `_prepare_kwargs` raises)
+      -> `{"evs":[…],"nodup":b,"progOrder":b,"cell":"orig"|["writer",a],"unbound":b,"origLog":[TOK…],
+          "out":{"a":[TOK…]|null},"spec":{"a":[TOK…]}}`     (TOK = `[author,n]`)
+
+RET = `{"kind":"true|false|none|str|dict|taskfailed|taskerror|other|raises|raisesbase","s":str,"d":VALS}`;
+VALS = `[[key, VAL]…]`, VAL = `null | n | "text"`; values are printed as sorted `[[key, VAL]]` of the dict view;
+RES = `null | "str" | {"dict":VALS}`. -/
+
+def strOf (cs : List Char) : String := String.ofList cs
+
+def parseVal (j : Json) : Val :=
+  match j with
+  | .null => .none
+  | .str s => .text s.toList
+  | j => .nat (asNat j)
+
+def parseVals (j : Json) : Vals :=
+  (asArr j).map fun p => match asArr p with
+    | [k, v] => (asNat k, parseVal v)
+    | _ => (0, .none)
+
+def valJson : Val → Json
+  | .none => Json.null
+  | .nat n => toJson n
+  | .text s => Json.str (strOf s)
+
+/-- the dict view: distinct keys in increasing order, each with its looked-up value -/
+def valsJson (vs : Vals) : Json :=
+  let keys := (vs.map (·.1)).eraseDups.toArray.qsort (· < ·) |>.toList
+  mkArr (keys.map fun k => mkArr [toJson k, valJson ((Vals.get vs k).getD .none)])
+
+def resJson : Res → Json
+  | .none => Json.null
+  | .str s => Json.str (strOf s)
+  | .dict d => Json.mkObj [("dict", valsJson d)]
+
+def parseRes (j : Json) : Res :=
+  match j with
+  | .null => .none
+  | .str s => .str s.toList
+  | j => .dict (parseVals (jobj j "dict"))
+
+def outcomeStr : Outcome → String
+  | .ok => "ok" | .failed => "failed" | .error => "error" | .raised => "raised"
+
+def parseOutcome : String → Outcome
+  | "ok" => .ok | "failed" => .failed | "error" => .error | _ => .raised
+
+def aresJson (a : ARes) : Json :=
+  Json.mkObj [("outcome", Json.str (outcomeStr a.outcome)), ("result", resJson a.result),
+              ("values", valsJson a.values)]
+
+def parseRet (j : Json) : Option PyRet :=
+  match jstr j "kind" with
+  | "true" => some .rTrue | "false" => some .rFalse | "none" => some .rNone
+  | "str" => some (.rStr (jstr j "s").toList)
+  | "dict" => some (.rDict (parseVals (jobj j "d")))
+  | "taskfailed" => some .rTaskFailed | "taskerror" => some .rTaskError | "other" => some .rOther
+  | "raises" => some .raisesExc | "raisesbase" => some .raisesBase
+  | _ => none
+
+def parseCap : String → Option Cap
+  | "yes" => some .yes | "no" => some .no | "devnull" => some .devnull | _ => none
+
+def actionRes (j : Json) : Option ARes :=
+  match jstr j "op" with
+  | "py" => (parseRet (jobj j "ret")).map (pyExec (jbool j "kwargsRaise"))
+  | "cmd" =>
+    (parseCap (jstr j "cap")).map fun cap =>
+      let so : Option Nat := match jobj j "saveOut" with | .null => none | x => some (asNat x)
+      cmdExec (jbool j "expandRaises") cap so (jint j "rc") (jstr j "out").toList (jstr j "err").toList
+  | "ares" => some ⟨parseOutcome (jstr j "outcome"), parseRes (jobj j "result"), parseVals (jobj j "values")⟩
+  | _ => none
+
+def routeJson (r : Route) : Json :=
+  Json.mkObj [("captured", Json.bool r.captured), ("shown", Json.bool r.shown), ("inherited", Json.bool r.inherited)]
+
+/-! ### stream machine -/
+
+instance : Inhabited Forest := ⟨.nil⟩
+instance : Inhabited Fwd.Forest := ⟨.nil⟩
+
+partial def parseForest (items : List Json) : Forest :=
+  match items with
+  | [] => .nil
+  | it :: rest =>
+    match asArr it with
+    | [tag, n] =>
+      if asStr tag = "w" then .write (asNat n) (parseForest rest)
+      else if asStr tag = "k" then .kw (asNat n) (parseForest rest)
+      else parseForest rest
+    | [tag, b, body] =>
+      if asStr tag = "x" then .exec (asNat b) (parseForest (asArr body)) (parseForest rest)
+      else parseForest rest
+    | _ => parseForest rest
+
+def parseEv (j : Json) : Option Ev :=
+  match asArr j with
+  | [tag, a] =>
+    match asStr tag with
+    | "save" => some (.save (asNat a)) | "set" => some (.set (asNat a))
+    | "restore" => some (.restore (asNat a)) | "read" => some (.read (asNat a))
+    | _ => none
+  | [tag, a, n] => if asStr tag = "write" then some (.write (asNat a) (asNat n)) else none
+  | _ => none
+
+def evJson : Ev → Json
+  | .save a => mkArr [Json.str "save", toJson a]
+  | .set a => mkArr [Json.str "set", toJson a]
+  | .write a n => mkArr [Json.str "write", toJson a, toJson n]
+  | .restore a => mkArr [Json.str "restore", toJson a]
+  | .read a => mkArr [Json.str "read", toJson a]
+
+def tokJson (t : Tok) : Json := mkArr [toJson t.1, toJson t.2]
+def toksJson (ts : List Tok) : Json := mkArr (ts.map tokJson)
+
+def streamJson : Stream → Json
+  | .orig => Json.str "orig"
+  | .writer a => mkArr [Json.str "writer", toJson a]
+
+def authors (evs : List Ev) : List Act :=
+  (evs.map fun | .save a => a | .set a => a | .write a _ => a | .restore a => a | .read a => a).eraseDups
+
+def streamAnswer (evs : List Ev) : Json :=
+  let s := run St.init evs
+  let as := authors evs
+  Json.mkObj [
+    ("evs", mkArr (evs.map evJson)),
+    ("nodup", Json.bool (decide (started evs).Nodup)),
+    ("progOrder", Json.bool (progOrder (fun _ => 0) evs)),
+    ("cell", streamJson s.cell),
+    ("unbound", Json.bool s.unbound),
+    ("origLog", toksJson s.origLog),
+    ("out", Json.mkObj (as.map fun a => (toString a, match s.out a with | none => Json.null | some l => toksJson l))),
+    ("spec", Json.mkObj (as.map fun a => (toString a, toksJson (writesOf a evs))))]
+
+/-! ### stream machine with the live copy (`Fwd`): `{"op":"streamfwd","forest":[ITEM…]}` with
+    ITEM = `["w",n]` | `["x",b,on,[ITEM…]]` | `["k",b]` -> `{"cell":"orig"|"other","unbound":b,"nodup":b,
+    "allOff":b,"origLog":[TOK…],"out":{"a":[TOK…]|null},"spec":{"a":[TOK…]}}` -/
+
+partial def parseFwdForest (items : List Json) : Fwd.Forest :=
+  match items with
+  | [] => .nil
+  | it :: rest =>
+    match asArr it with
+    | [tag, n] =>
+      if asStr tag = "w" then .write (asNat n) (parseFwdForest rest)
+      else if asStr tag = "k" then .kw (asNat n) (parseFwdForest rest)
+      else parseFwdForest rest
+    | [tag, b, on, body] =>
+      if asStr tag = "x" then
+        .exec (asNat b) ((on.getBool?).toOption.getD false) (parseFwdForest (asArr body)) (parseFwdForest rest)
+      else parseFwdForest rest
+    | _ => parseFwdForest rest
+
+def fwdAuthors (evs : List Fwd.Ev) : List Act :=
+  (evs.filterMap fun | .save a => some a | _ => none).eraseDups
+
+def fwdAnswer (evs : List Fwd.Ev) : Json :=
+  let s := Fwd.run Fwd.St.init evs
+  let as := fwdAuthors evs
+  Json.mkObj [
+    ("cell", Json.str (if s.cell == .orig then "orig" else "other")),
+    ("unbound", Json.bool s.unbound),
+    ("nodup", Json.bool (decide (Fwd.started evs).Nodup)),
+    ("allOff", Json.bool (Fwd.allOff evs)),
+    ("nsteps", toJson evs.length),
+    ("origLog", toksJson s.origLog),
+    ("out", Json.mkObj (as.map fun a => (toString a, match s.out a with | none => Json.null | some l => toksJson l))),
+    ("spec", Json.mkObj (as.map fun a => (toString a, toksJson (Fwd.writesOf a evs))))]
+
+def handle (j : Json) : Json :=
+  match jstr j "op" with
+  | "streamfwd" => fwdAnswer (Fwd.flatten none (parseFwdForest (jarr j "forest")))
+  | "py" | "cmd" =>
+    match actionRes j with
+    | some a => aresJson a
+    | none => Driver.err "bad action"
+  | "task" =>
+    match (jarr j "actions").mapM actionRes with
+    | none => Driver.err "bad action in task"
+    | some as =>
+      let r := taskExecute as
+      Json.mkObj [("outcome", Json.str (outcomeStr r.outcome)), ("result", resJson r.result),
+                  ("values", valsJson r.values), ("ran", toJson r.ran), ("ares", mkArr (as.map aresJson)),
+                  ("teardown", Json.mkObj [("outcome", Json.str (outcomeStr (teardownRun 0 as).1)),
+                                           ("ran", toJson (teardownRun 0 as).2)])]
+  | "route" =>
+    let v : Option Nat := match jobj j "v" with | .null => none | x => some (asNat x)
+    let live := getOutErr v
+    match jstr j "kind", parseCap (jstr j "cap") with
+    | "py", some cap =>
+      Json.mkObj [("live", mkArr [Json.bool live.1, Json.bool live.2]),
+                  ("out", routeJson (pyRoute (cap == .yes) live.1)), ("err", routeJson (pyRoute (cap == .yes) live.2))]
+    | "cmd", some cap =>
+      Json.mkObj [("live", mkArr [Json.bool live.1, Json.bool live.2]),
+                  ("out", routeJson (cmdRoute cap live.1)), ("err", routeJson (cmdRoute cap live.2))]
+    | _, _ => Driver.err "bad route request"
+  | "stream" =>
+    if jhas j "forest" then
+      let f := parseForest (jarr j "forest")
+      streamAnswer (if jbool j "pinned" then flattenPinned none f else flatten none f)
+    else
+      match (jarr j "evs").mapM parseEv with
+      | none => Driver.err "bad ev"
+      | some evs => streamAnswer evs
+  | op => Driver.err s!"act: unknown op {op}"
+
 end Driver.Act
